@@ -151,15 +151,15 @@ def _case(kind, cmd, k, mode=0):
 
 def w_crash(kind: int, cmd: int, k: int, mode: int) -> str:
     """
-    pre: PARTITION is None or cmd == PARTITION
-    pre: 0 <= kind < 6 and 0 <= cmd < 9 and 0 <= k < kbound(PARTITION) and 0 <= mode < 3
+    pre: PARTITION is None or (cmd == PARTITION[0] and mode == PARTITION[1])
+    pre: 0 <= kind < 6 and 0 <= cmd < 9 and 0 <= k < kbound(None if PARTITION is None else PARTITION[0]) and 0 <= mode < 3
     post: _ == ''
     """
-    return _case(rt.sel(kind, 6), rt.sel(cmd, 9), rt.sel(k, kbound(PARTITION)), rt.sel(mode, 3))
+    return _case(rt.sel(kind, 6), rt.sel(cmd, 9), rt.sel(k, kbound(None if PARTITION is None else PARTITION[0])), rt.sel(mode, 3))
 
 
 def obligations(tier):
-    return [CH('W_crash_point_x_kind_x_cmd', MOD, 'w_crash', timeout=1800, partitions=list(range(9)), engine='W',
+    return [CH('W_crash_point_x_kind_x_cmd', MOD, 'w_crash', timeout=1800, partitions=[(c, md) for c in range(9) for md in range(3)], engine='W',
                regime='selector', encodes=K.RESTORE_FUNCS + K.EMPTY_FUNCS + K.RM_FUNCS + ['shutil.move/rmtree (CPython source over the model)'],
                stubs=K.STUBS + ['SIGKILL -> sticky BaseException at the k-th system call', 'SIGINT -> one KeyboardInterrupt instead of / right after the k-th system call'],
                bounds='crash point k in 0..(longest undisturbed run of the command scenario, measured) x 3 ways of dying (fail-stop; KeyboardInterrupt before / after the k-th system call, handlers run) x 6 kinds x 9 commands '
